@@ -376,6 +376,9 @@ def c08_extra(ctx):
     hs = [h for h in c09.harnesses(tier()) if not h.name.startswith("c09/compose")]
     for h in hs:
         h.key = "parser_fails_" + h.key
+    from checks import leafharness
+
+    hs += leafharness.c08_plumbing(tier())
     ch.run_harnesses(run, hs)
 
 
